@@ -1,0 +1,12 @@
+//go:build verif
+
+// Verification hooks (build tag "verif"). Add-only.
+
+package replay
+
+import "time"
+
+// VerifParams returns the configured capacity and expire interval of the cache.
+func (c *ReplayCache) VerifParams() (capacity int, expireInterval time.Duration) {
+	return c.capacity, c.expireInterval
+}
